@@ -356,12 +356,7 @@ func main() {
 		runOrder(w, r)
 	}
 	extra := map[string]any{"calls_succeeded": okCount}
-	var notes []string
-	if !cfg.Quick {
-		notes = raceTier(w, cfg, extra)
-	} else {
-		notes = []string{"race tier (go build -race, concurrent mixes) runs in --tier thorough only"}
-	}
+	notes := raceTier(w, cfg, extra) // quick: reduced (1 round, 30% iterations); thorough: 2 rounds
 	err := w.Close(emit.Meta{Property: "C20", Tier: cfg.Tier, Seed: cfg.Seed, Notes: notes, Extra: extra,
 		Rule: "snap: 16 operation classes in rotation (constructors of op/rp/rs/tokenexchange with random option lists, requests against provider and legacy server, rp/rs/tokenexchange/key-set calls, client.Call* helpers, GetAudience) on a randomised world (default or caller client with/without CheckRedirect, jar, timeout; user-customised default endpoint; option slices with spare capacity; oauth2.Config auth style); order: 2-4 groups on separate instances sharing clients/defaults, random interleaving, one probe per group (discovery endpoints; does a Discover/token/userinfo/introspect/exchange call follow a redirect). Non-trivial = every case (path class = operation class / interleaving length); distinct = distinct input term.",
 	})
